@@ -118,6 +118,8 @@ def run(ctx):
     r2_reset_unconditional(ctx)
     r4_absent_fields(ctx)
     r5(ctx)
+    from rules import atoms
+    atoms.memory_write(ctx, 'R5')
     r6(ctx)
     # evidence (c) for CachedBlock.fee_rates: the recompute arm yields what the insertion-time cache held —
     # same fee computation, same transaction order, same selection window (shared with C15.R2/R3)
